@@ -189,6 +189,8 @@ struct Tr<'a> {
     s: t6w::SState,
     /// READ mode: the reader is an owned parameter (`mut reader: R`), callees get `&mut reader`
     reader_owned: bool,
+    /// READ mode (t6r.rs): the function records `cell.store(v)` effects; name of the list variable
+    rstores: Option<String>,
 }
 
 fn path_last(p: &Path) -> String {
@@ -240,6 +242,8 @@ fn untyped_int_lit(e: &Expr) -> bool {
     match e {
         Expr::Lit(ExprLit { lit: Lit::Int(i), .. }) => i.suffix().is_empty(),
         Expr::Paren(p) => untyped_int_lit(&p.expr),
+        // `4 + 22 + 2 + 2`: a constant expression of untyped literals takes its type from its first typed use
+        Expr::Binary(b) if matches!(b.op, BinOp::Add(_) | BinOp::Sub(_) | BinOp::Mul(_)) => untyped_int_lit(&b.left) && untyped_int_lit(&b.right),
         _ => false,
     }
 }
@@ -489,6 +493,7 @@ impl<'a> Tr<'a> {
             skip_tuple: false,
             s: t6w::SState::default(),
             reader_owned: false,
+            rstores: None,
         }
     }
 
@@ -721,6 +726,7 @@ impl<'a> Tr<'a> {
                     }
                     "HashMap" if args.len() == 2 => Ok(format!("(Rs.HashMap {} {})", self.ty(args[0])?, self.ty(args[1])?)),
                     "Arc" if args.len() == 1 => self.ty(args[0]),
+                    "Take" => Ok("Rs.Take".into()),
                     "String" | "str" => Ok("Bytes".into()),
                     n if self.reg.enums.contains_key(n) || self.reg.structs.contains(n) => Ok(format!("Gen.{n}")),
                     n => Err(format!("unsupported type {n}")),
@@ -2531,6 +2537,8 @@ impl<'a> Tr<'a> {
                     self.emit(format!("return Rs.Step.ret {v}"));
                 } else if let (Mode::P | Mode::S, Some(p)) = (&self.mode, &self.pstate) {
                     self.emit(format!("return ({v}, {p})"));
+                } else if let (Mode::R, Some(st)) = (&self.mode, &self.rstores) {
+                    self.emit(format!("return ({v}, {st})"));
                 } else {
                     self.emit(format!("return {v}"));
                 }
@@ -3101,9 +3109,10 @@ fn sig_info(tr: &Tr, sig: &Signature, impl_generics: Option<&Generics>) -> R<(Fn
     let mut read = false;
     let mut n_generics = 0;
     // a type parameter of the enclosing `impl<R: Read + Seek> …` counts when a parameter is `&mut R`
-    let mut own: Vec<&GenericParam> = sig.generics.params.iter().collect();
+    // lifetime parameters carry no meaning here
+    let mut own: Vec<&GenericParam> = sig.generics.params.iter().filter(|g| !matches!(g, GenericParam::Lifetime(_))).collect();
     if let Some(ig) = impl_generics {
-        if sig.generics.params.is_empty() && ig.where_clause.is_none() {
+        if own.is_empty() && ig.where_clause.is_none() {
             for g in &ig.params {
                 if let GenericParam::Type(tp) = g {
                     let used = sig.inputs.iter().any(|a| matches!(a, FnArg::Typed(t) if matches!(&*t.ty, Type::Reference(r) if r.mutability.is_some() && matches!(&*r.elem, Type::Path(p) if p.path.is_ident(&tp.ident)))))
@@ -3178,6 +3187,17 @@ fn sig_info(tr: &Tr, sig: &Signature, impl_generics: Option<&Generics>) -> R<(Fn
     if tparam.is_some() && writer_name.is_none() {
         return Err("generic function without a `&mut T` writer parameter".into());
     }
+    // `reader: &mut (impl Read [+ Seek])`
+    let mut impl_reader = false;
+    if tparam.is_none() {
+        if let Some((idx, name, sk)) = t6r::impl_reader(sig) {
+            writer_idx = Some(idx);
+            writer_name = Some(name);
+            read = true;
+            seek = sk;
+            impl_reader = true;
+        }
+    }
     // `ZipResult<R>` → W mode
     let zr: Option<&Type> = match &sig.output {
         ReturnType::Type(_, t) => match &**t {
@@ -3193,7 +3213,7 @@ fn sig_info(tr: &Tr, sig: &Signature, impl_generics: Option<&Generics>) -> R<(Fn
         _ => None,
     };
     // `x: &mut Struct` (a translated structure) in a plain ZipResult function → P mode
-    if zr.is_some() && tparam.is_none() {
+    if zr.is_some() && tparam.is_none() && !impl_reader {
         let mut found: Option<(usize, String)> = None;
         let mut k = 0;
         for a in &sig.inputs {
@@ -3302,10 +3322,18 @@ fn translate_fn(reg: &Registry, failed: &HashSet<String>, self_ty: Option<&str>,
             tr.emit(format!("let mut {p} := {p}"));
             tr.mut_vars.insert(p);
         }
+        if fi.mode == Mode::R && t6r::has_store(block) {
+            tr.rstores = Some("stores_".into());
+            tr.emit("let mut stores_ : Rs.Stores := []".into());
+            tr.mut_vars.insert("stores_".into());
+            tr.vars.insert("stores_".into(), "Rs.Stores".into());
+        }
         let v = tr.block_value(block)?;
         tr.hint = None;
         if let (Mode::P, Some(p)) = (&fi.mode, tr.pstate.clone()) {
             tr.emit(format!("pure ({v}, {p})"));
+        } else if let (Mode::R, Some(st)) = (&fi.mode, tr.rstores.clone()) {
+            tr.emit(format!("pure ({v}, {st})"));
         } else {
             tr.emit(format!("pure {v}"));
         }
@@ -3316,7 +3344,9 @@ fn translate_fn(reg: &Registry, failed: &HashSet<String>, self_ty: Option<&str>,
             s.push('\n');
         }
         let ps = if params.is_empty() { String::new() } else { format!(" {}", params.join(" ")) };
-        if fi.mode == Mode::R {
+        if fi.mode == Mode::R && tr.rstores.is_some() {
+            writeln!(s, "def {lean_name}{ps} : Model.M ({ret} × Rs.Stores) := do").unwrap();
+        } else if fi.mode == Mode::R {
             writeln!(s, "def {lean_name}{ps} : Model.M {ret} := do").unwrap();
         } else if fi.mode == Mode::P {
             let st_ty = tr.pstate.as_ref().and_then(|p| tr.vars.get(p)).cloned().unwrap_or_default();
@@ -3824,7 +3854,7 @@ fn main() {
         if fo.body.contains("Rs.S.") {
             writeln!(text, "import ZipVerif.Basic.RsS").unwrap();
         }
-        if fo.body.contains("Rs.Vec") || fo.body.contains("Rs.HashMap") || fo.body.contains("Rs.R.forRange") || fo.body.contains("Rs.Arc") {
+        if fo.body.contains("Rs.Vec") || fo.body.contains("Rs.HashMap") || fo.body.contains("Rs.R.forRange") || fo.body.contains("Rs.Arc") || fo.body.contains("Rs.Take") || fo.body.contains("Rs.Stores") {
             writeln!(text, "import ZipVerif.Basic.RsGlue").unwrap();
         }
         if fo.body.contains("Rs.Aes") || fo.body.contains("Rs.Hmac") {
